@@ -1,17 +1,17 @@
 SPECIFICATION Spec
 CONSTANTS
   NProc = 2
-  NGuards = 6
-  NAsgs = 6
-  NInvs = 5
-  TwoArr = FALSE
+  NGuards = 3
+  NAsgs = 4
+  NInvs = 3
+  TwoArr = TRUE
   Record = FALSE
   MaxSteps = 0
-  WpMulti = 2
+  WpMulti = 0
   RunSet = 0
-  DoEmit = FALSE
+  DoEmit = TRUE
   DoWp = TRUE
-  DoRun = TRUE
+  DoRun = FALSE
 INVARIANT WpExact
 INVARIANT Consistent
 INVARIANT Classified
